@@ -316,13 +316,14 @@ type evRec struct {
 }
 
 type recHandler struct {
-	seq     *seqLog
-	mu      sync.Mutex
-	evs     []evRec
-	onMsg   func(s *gws.Conn, op gws.Opcode, p []byte) // optional extra behaviour (runs after recording)
-	onPing  func(s *gws.Conn, p []byte)
-	keepMsg bool // do not Close messages (ownership tests)
-	held    []*gws.Message
+	seq      *seqLog
+	mu       sync.Mutex
+	evs      []evRec
+	onMsg    func(s *gws.Conn, op gws.Opcode, p []byte) // optional extra behaviour (runs after recording)
+	onPing   func(s *gws.Conn, p []byte)
+	keepMsg  bool          // do not Close messages (ownership tests)
+	lateRead time.Duration // parallel handling: look at the message only after this delay (it is the handler's until Close)
+	held     []*gws.Message
 }
 
 func (h *recHandler) add(e evRec) {
@@ -352,6 +353,9 @@ func (h *recHandler) OnPong(s *gws.Conn, p []byte) {
 	h.add(evRec{Kind: "pong", Opcode: 10, Payload: append([]byte(nil), p...)})
 }
 func (h *recHandler) OnMessage(s *gws.Conn, m *gws.Message) {
+	if h.lateRead > 0 {
+		time.Sleep(h.lateRead)
+	}
 	p := append([]byte(nil), m.Bytes()...)
 	op := m.Opcode
 	h.seq.add(14)
